@@ -241,6 +241,32 @@ def sethref(out):
         raise Refused("_setHref: cwd fallback for a missing parent href not found")
     out.append("Definition join_guarded : bool := %s." % ("true" if guarded else "false"))
     body = [x for x in tr.body if ast.unparse(x) != join and not ast.unparse(x).startswith(("parentHref =", "if parentHref is None"))]
+    # optional guard against import cycles: walk the chain sheet -> ownerRule -> parentStyleSheet and refuse to load a
+    # URL that one of the importing sheets has
+    guard_exn = None
+    gi = [i for i, x in enumerate(body) if isinstance(x, ast.While)]
+    if gi:
+        if len(gi) != 1 or gi[0] != 1 or not guarded or ast.unparse(body[0]) != "sheet = self.parentStyleSheet":
+            raise Refused("_setHref: a loop at an unexpected place in the try body")
+        if [ast.unparse(x) for x in tr.body].index(join) > [ast.unparse(x) for x in tr.body].index("sheet = self.parentStyleSheet"):
+            raise Refused("_setHref: cycle guard before the urljoin call")
+        w = body[1]
+        if ast.unparse(w.test) != "sheet is not None" or w.orelse or len(w.body) != 3:
+            raise Refused("_setHref: cycle guard loop not understood")
+        c = w.body[0]
+        if not (isinstance(c, ast.If) and ast.unparse(c.test) == "sheet.href == fullhref" and not c.orelse and len(c.body) == 1
+                and isinstance(c.body[0], ast.Raise) and isinstance(c.body[0].exc, ast.Call)
+                and isinstance(c.body[0].exc.func, ast.Name)):
+            raise Refused("_setHref: cycle guard test not understood")
+        expect(w.body[1], "owner = sheet.ownerRule", "cycle guard step 1")
+        expect(w.body[2], "sheet = owner.parentStyleSheet if owner is not None else None", "cycle guard step 2")
+        guard_exn = exn_class(c.body[0].exc.func.id, "cycle guard")
+        body = body[2:]
+    elif any(ast.unparse(x) == "sheet = self.parentStyleSheet" for x in body):
+        raise Refused("_setHref: half a cycle guard")
+    out.append("Definition cycle_guard : bool := %s.   (* _setHref refuses a URL that a sheet of the import chain has *)"
+               % ("true" if guard_exn else "false"))
+    out.append("Definition raised_on_cycle : exn := %s." % (guard_exn or "E_OSError"))
     shapes = [ast.unparse(x) for x in body]
     want = ["usedEncoding, enctype, cssText = self.parentStyleSheet._resolveImport(fullhref)", None,
             "encodingOverride, encoding = (None, None)", None, "importedSheet._href = fullhref",
